@@ -363,6 +363,7 @@ func (s *socket) MaybeUpgrade(transport transports.Transport) {
 		} else if packet.UPGRADE == data.Type && probed.Load() && s.ReadyState() != "closed" {
 			socket_log.Debug("got upgrade packet - upgrading")
 			cleanup()
+			verifhook.At("upgrade.switching", s.id)
 			s.Transport().Discard()
 
 			s.upgraded.Store(true)
